@@ -61,7 +61,6 @@ def enclosing_loop_header(body, bi):
     return best
 
 
-REJECT_LISTS = {"invalid", "invalid_node", "invalid_nodes"}
 ACCEPT_CALLS = r"(Vec::push$|BufferedDatabaseWriter::send$|RoomAuthorisations::add_room$|VecDeque::push_back$)"
 
 
@@ -102,7 +101,9 @@ def check_refusal(body, call_block, accept_lists=None):
             if t["k"] == "call" and re.search(ACCEPT_CALLS, callee_name(t)):
                 a = body.call_args(bi)
                 tgt = field_path(a[0])
-                if tgt.split(".")[-1] in REJECT_LISTS:
+                # a list of identifiers (Vec<Uid>) records rejected rows; accepted rows are pushed as rows
+                if any(body.id.endswith(f) for f in FILTER_FNS) and callee_name(t).endswith("Vec::push") \
+                        and re.search(r"^Vec<\[u8; 16\]>$", mir.short_type(body.root_type(mir.strip(a[0])))):
                     continue
                 if accept_lists is None or tgt.split(".")[-1] in accept_lists:
                     accepts.append("%s@%s" % (tgt, body.loc(bi)))
@@ -289,7 +290,10 @@ def history_lookup_rule(P, C, rule):
                     if len(sts) == 1 and sts[0]["rv"]["r"] == "bin" and sts[0]["rv"]["op"] == "Le":
                         l = cb.operand_term(sts[0]["rv"]["a"])
                         r = cb.operand_term(sts[0]["rv"]["b"])
-                        cmp_ok = field_path(l).split(".")[-1] == HISTORY_FIELDS[fld] and r[0] in ("upvar",) or (field_path(r).split(".")[-1] == "date" and mir.strip_refs(r)[0] == "upvar")
+                        # `entry.<date field> <= <the date argument of the lookup function, captured>`
+                        ru = mir.strip(r)
+                        cmp_ok = (field_path(l).split(".")[-1] == HISTORY_FIELDS[fld] and mir.strip(l)[0] == "field"
+                                  and ru[0] == "upvar" and cb.upvar_type(ru[1]) == "i64" and ru[1] in b.find_locals(ty=r"^i64$", param=True))
                 ok = ok and cmp_ok
                 det += "; reversed iteration with `entry.%s <= date` as the only test: %s" % (HISTORY_FIELDS[fld], cmp_ok)
                 # the decision is the found entry's flag
@@ -331,8 +335,9 @@ def history_lookup_rule(P, C, rule):
         iv = b.calls_to(r"Authorisation::is_user_valid_at$")
         ac = b.calls_to(r"Authorisation::can$")
         same_date = True
+        dates = b.find_locals(ty=r"^i64$", param=True)
         for bi, t in ia + iv + ac:
             a = b.call_args(bi)
-            same_date = same_date and any(field_path(x) == "date" for x in a)
+            same_date = same_date and len(dates) == 1 and any(field_path(x) == dates[0] for x in a)
         C.ob(rule, "room-can:membership-and-right-at-the-same-date", len(ia) == 1 and len(iv) == 1 and len(ac) == 1 and same_date, b.loc(),
              "Room::can = (is_admin(user,date) or group.is_user_valid_at(user,date)) and group.can(entity,date,right)")
